@@ -15,7 +15,7 @@ From Coq Require Import ZArith List Bool.
 From PTK Require Import Lib.Sx Lib.Py Model.C11_Scroll Model.C11_CopyBody
      Proofs.C11_ScrollFacts Proofs.C11_CopyFacts Proofs.C11_LiveFacts Proofs.C11_WrapFacts
      Proofs.C11_ColMapFacts Proofs.C11_SeqFacts Proofs.C11_RowsFacts Proofs.C11_VarPrefixFacts
-     Proofs.C11_Main Proofs.C11_RenderFacts Proofs.C11_DocFacts.
+     Proofs.C11_Main Proofs.C11_RenderFacts Proofs.C11_DocFacts Proofs.C11_VlFacts Proofs.C11_ScreenFacts Proofs.C11_WideFacts Proofs.C11_NoWrapWide Proofs.C11_PackFacts Proofs.C11_RenderWide.
 Import ListNotations.
 Open Scope Z_scope.
 
@@ -162,9 +162,9 @@ Print Assumptions C11_rows_consecutive.
    registered row above the first has a registered predecessor) - again for all
    character widths, prefixes, both modes, every scroll state (provided a line
    exists at vertical_scroll and the first row is above the window bottom).
-   Not proved (oracle + correspondence only): the column recorded for a wrapped
-   row increases within a line, and every character registered on screen row y
-   belongs to the line recorded for y. *)
+   The column recorded for a wrapped row and the agreement between
+   rowcol_to_yx and visible_line_to_row_col: C11_rows_columns_increase,
+   C11_registered_row_line below. *)
 Theorem C11_rows_interval :
   forall sw dw disp wrap haspfx pfx width height xpos ypos lines st,
   skipn (Z.to_nat (vs st)) lines <> [] -> - vs2 st < height ->
@@ -174,6 +174,283 @@ Theorem C11_rows_interval :
      - vs2 st <= y /\ (- vs2 st < y -> exists e', zlist_get (cvl out) (y - 1) = Some e')).
 Proof. exact rows_interval. Qed.
 Print Assumptions C11_rows_interval.
+
+(* (round 6) Every character registered in rowcol_to_yx on a screen row belongs
+   to the document line that visible_line_to_row_col records for that row -
+   ALL character widths, prefixes, both modes, every scroll state, no
+   hypothesis. *)
+Theorem C11_registered_row_line :
+  forall sw dw disp wrap haspfx pfx width height xpos ypos lines st,
+  let out := copy_body sw dw disp wrap haspfx pfx width height xpos ypos lines st in
+  forall l c y x, alist_get (cr2 out) (l, c) = Some (y, x) ->
+    exists c0, zlist_get (cvl out) (y - ypos) = Some (l, c0).
+Proof. exact registered_row_line. Qed.
+Print Assumptions C11_registered_row_line.
+
+(* (round 6) Successive rows show the next document line, or the SAME line
+   further right: the column recorded for a wrapped row is strictly larger than
+   the one recorded for the row above.  All widths (wide, zero-width, control),
+   prefixes, modes, scroll states - provided every character fits the body
+   (dw c <= width, "the window can hold the widest character").  The hypothesis
+   is needed: C11_rows_columns_wide_in_narrow_window (a 2-cell character in a
+   1-cell body wraps an empty row; the same column is recorded twice). *)
+Theorem C11_rows_columns_increase :
+  forall sw dw disp wrap haspfx pfx width height xpos ypos lines st,
+  (forall c, dw c <= width) ->
+  let out := copy_body sw dw disp wrap haspfx pfx width height xpos ypos lines st in
+  forall y l c l' c',
+    zlist_get (cvl out) y = Some (l, c) -> zlist_get (cvl out) (y + 1) = Some (l', c') ->
+    (l' = l /\ c < c') \/ l' = l + 1.
+Proof. exact rows_columns_increase. Qed.
+Print Assumptions C11_rows_columns_increase.
+
+Example C11_rows_columns_wide_in_narrow_window :
+  let out := copy_body (fun _ => 2) (fun _ => 2) (fun c => [c]) true false (fun _ _ => []) 1 3 0 0
+               [[30028; 32]] (mkss 0 0 0) in
+  zlist_get (cvl out) 0 = Some (0, 0) /\ zlist_get (cvl out) 1 = Some (0, 0).
+Proof. exact rows_columns_wide_in_narrow_window. Qed.
+Print Assumptions C11_rows_columns_wide_in_narrow_window.
+
+(* (round 6) The WHOLE rendered screen, stated on what [render] returns (r_look
+   = rowcol_to_yx read out for every cell of every content line, r_grid = the
+   body cells, r_vlook = visible_line_to_row_col), width-1 characters, any
+   configuration (margins, prefixes, processors, both modes), any previous
+   scroll state with vertical_scroll >= 0, any text and cursor for which the
+   render succeeds: EVERY registered (line l, display column c) lies inside the
+   window body, the r_grid cell there shows exactly character c of content line
+   l, and that screen row is recorded for line l in visible_line_to_row_col. *)
+Theorem C11_render_screen : forall g W Hh xpos ypos text cursor st r,
+  (forall c, tab_sw g c = 1 /\ tab_dw g c = 1) -> 0 <= vs st ->
+  render g W Hh xpos ypos text cursor st = Some r ->
+  (forall l, g_wrap g = false \/ g_haspfx g = false \/ len (cfg_pfx g l 0) <= r_bw r) ->
+  forall l c rowl Y X,
+    nth_error (r_look r) l = Some rowl -> nth_error rowl c = Some (Some (Y, X)) ->
+    ypos <= Y < ypos + Hh /\ xpos + r_mw r <= X < xpos + r_mw r + r_bw r /\
+    exists line ch rowg c0,
+      nth_error (r_lines g text) l = Some line /\ nth_error line c = Some ch /\
+      nth_error (r_grid r) (Z.to_nat (Y - ypos)) = Some rowg /\
+      nth_error rowg (Z.to_nat (X - xpos - r_mw r)) = Some (tab_disp g ch) /\
+      nth_error (r_vlook r) (Z.to_nat (Y - ypos)) = Some (Some (Z.of_nat l, c0)).
+Proof. exact render_screen. Qed.
+Print Assumptions C11_render_screen.
+
+(* ... in terms of the DOCUMENT: for every source position (line l, column i)
+   of the text whose image column under BeforeInput/TabsProcessor has a screen
+   position, the body cell there shows the document character (the first tab
+   cell for a TAB under TabsProcessor). *)
+Theorem C11_render_screen_doc : forall g W Hh xpos ypos text cursor st r,
+  (forall c, tab_sw g c = 1 /\ tab_dw g c = 1) -> 0 <= g_tabstop g -> 0 <= vs st ->
+  render g W Hh xpos ypos text cursor st = Some r ->
+  (forall l, g_wrap g = false \/ g_haspfx g = false \/ len (cfg_pfx g l 0) <= r_bw r) ->
+  forall l i srcline ch ucol rowl Y X,
+    nth_error (split_on NL text) l = Some srcline -> nth_error srcline i = Some ch ->
+    pl_s2d (process_line (g_bflag g) (g_before g) (g_tabstop g) TABCH1 TABCH2 (Z.of_nat l) srcline) (Z.of_nat i)
+      = Some ucol ->
+    nth_error (r_look r) l = Some rowl -> nth_error rowl (Z.to_nat ucol) = Some (Some (Y, X)) ->
+    ypos <= Y < ypos + Hh /\ xpos + r_mw r <= X < xpos + r_mw r + r_bw r /\
+    exists rowg,
+      nth_error (r_grid r) (Z.to_nat (Y - ypos)) = Some rowg /\
+      nth_error rowg (Z.to_nat (X - xpos - r_mw r)) = Some (tab_disp g (shown (g_tabstop g) TABCH1 ch)).
+Proof. exact render_screen_doc. Qed.
+Print Assumptions C11_render_screen_doc.
+
+(* (round 6) Whole HISTORIES through one window.  Every state of the history
+   brings its own configuration (wrap mode, margins, scroll offsets, line
+   prefixes, processors, allow_scroll_beyond_bottom may ALL change between
+   renders), window size and position, text and cursor; the scroll state a
+   render leaves (vertical_scroll, vertical_scroll_2, horizontal_scroll) is the
+   previous state of the next render.  If every state is inside the property's
+   quantifier (state_in_scope: width-1 characters - or, for a state without
+   wrapping, wide characters with source width = display width >= 1 -, offsets >= 0, cursor inside
+   the text, window holds one character plus margins and prefix), then EVERY
+   render of the history succeeds and satisfies the conclusion of
+   C11_render_wrap / C11_render_nowrap (cursor registered inside the body on the
+   cell showing the document character under the cursor; column maps
+   consistent), starting from any scroll state with vertical_scroll >= 0. *)
+Theorem C11_history : forall h st, Forall state_in_scope h -> 0 <= vs st -> hist_ok h st.
+Proof. exact history_ok. Qed.
+Print Assumptions C11_history.
+
+(* the scroll state a render leaves keeps vertical_scroll >= 0 (what C11_history
+   threads through the sequence) *)
+Theorem C11_render_keeps_invariant : forall g W Hh xpos ypos text cursor st r,
+  render g W Hh xpos ypos text cursor st = Some r -> 0 <= vs st -> 0 <= vs (r_st r).
+Proof. exact render_vs_ge0. Qed.
+Print Assumptions C11_render_keeps_invariant.
+
+(* non-vacuity of C11_history: wrap -> no wrap -> wrap with margin, prefixes,
+   TabsProcessor, offsets -> wrap in a 2x2 window *)
+Example C11_history_example :
+  let g1 := g_plain true [] in
+  let g2 := g_plain false [] in
+  let g3 := mkcfg true true false false 1 1 0 0 true [62; 32] [46; 32] false 4 false [] [] in
+  let t := [97; 98; 99; 100; 101; 102; 103; 10; 104; 9; 105] in
+  hist_ok [(g1, (3, 1, 0, 0), (t, 7)); (g2, (3, 1, 0, 0), (t, 6)); (g3, (8, 2, 1, 1), (t, 10)); (g1, (2, 2, 0, 0), (t, 11))]
+          (mkss 0 0 0).
+Proof. exact history_example. Qed.
+Print Assumptions C11_history_example.
+
+(* (round 6) The WIDE-character sub-domain, part 1: safety.  Every displayed
+   character occupies at least one cell (dw c >= 1: double-width CJK characters,
+   also 2-4 cell caret/hex forms of control characters; any SOURCE widths), any
+   prefixes (measured in cells), both modes, every scroll state with
+   vertical_scroll >= 0: whatever (row, col) is registered in rowcol_to_yx lies
+   inside the window body and its cell shows exactly that character.  So in this
+   sub-domain the only way the property can fail is that the cursor is NOT
+   registered (not visible: C11_wrap_wide_refuted / C11_wrap_control_refuted);
+   a wrong cell or a position outside the window is impossible.  Generalises
+   C11_registered_is_right (dw = 1).  With zero-width characters the statement
+   is false as stated (the merge loop appends the mark to the cell before the
+   write head): C11_registered_zero_width_merges. *)
+Theorem C11_registered_is_right_wide :
+  forall sw dw disp wrap haspfx pfx width height xpos ypos lines st,
+  (forall c, 1 <= dw c) ->
+  (forall l, wrap = false \/ haspfx = false \/ strw dw (pfx l 0) <= width) ->
+  0 <= vs st ->
+  let out := copy_body sw dw disp wrap haspfx pfx width height xpos ypos lines st in
+  forall key pos, alist_get (cr2 out) key = Some pos ->
+    (ypos <= fst pos < ypos + height /\ xpos <= snd pos < xpos + width) /\
+    exists c, char_at lines key c /\
+              cstr (scr_get (cscr out) (fst pos) (snd pos)) = disp c.
+Proof. exact registered_is_right_wide. Qed.
+Print Assumptions C11_registered_is_right_wide.
+
+Example C11_registered_zero_width_merges :
+  let out := copy_body (fun c => if c =? 769 then 0 else 1) (fun c => if c =? 769 then 0 else 1) (fun c => [c])
+               true false (fun _ _ => []) 3 1 0 0 [[97; 769; 32]] (mkss 0 0 0) in
+  alist_get (cr2 out) (0, 0) = Some (0, 0) /\ cstr (scr_get (cscr out) 0 0) = [97; 769].
+Proof. exact registered_zero_width_merges. Qed.
+Print Assumptions C11_registered_zero_width_merges.
+
+(* (round 6) The WIDE-character sub-domain, part 2: liveness WITHOUT wrapping.
+   Source width = display width >= 1 for every character (double-width
+   characters; horizontal scroll may land in the middle of a 2-cell character,
+   which is then skipped as a whole and the rest shifted by one cell), any
+   prefixes (the cursor line's prefix leaves one cell), any previous scroll
+   state: the cursor is registered at (row - vertical_scroll, prefix cells +
+   cells before the cursor - horizontal_scroll), inside the window, and the cell
+   there shows the character under the cursor.  So without wrapping the wide
+   sub-domain is PROVED; with wrapping it is refuted (C11_wrap_wide_refuted,
+   finding C11-F14: the height estimate ignores the slack at row ends). *)
+Theorem C11_nowrap_wide :
+  forall sw dw disp (haspfx : bool) pfx width height xpos ypos top bottom lft rgt lines cyr cxc st allow,
+  (forall c, sw c = dw c) -> (forall c, 1 <= dw c) ->
+  1 <= height -> 0 <= top /\ 0 <= bottom /\ 0 <= lft /\ 0 <= rgt ->
+  0 <= cyr < len lines -> 0 <= cxc < len (nth (Z.to_nat cyr) lines []) ->
+  let line := nth (Z.to_nat cyr) lines [] in
+  let pw := if haspfx then strw sw (pfx cyr 0) else 0 in
+  1 <= width - pw ->
+  let s' := scroll_nowrap allow sw line pw width height top bottom lft rgt cyr cxc (len lines) st in
+  let o := copy_body sw dw disp false haspfx pfx width height xpos ypos lines s' in
+  let y := cyr - vs s' in
+  let x := pw + strw sw (slice_to line cxc) - hs s' in
+  0 <= y < height /\ pw <= x < width /\
+  alist_get (cr2 o) (cyr, cxc) = Some (y + ypos, x + xpos) /\
+  exists c, nth_error line (Z.to_nat cxc) = Some c /\
+            cstr (scr_get (cscr o) (y + ypos) (x + xpos)) = disp c.
+Proof. exact nowrap_wide_cursor. Qed.
+Print Assumptions C11_nowrap_wide.
+
+Example C11_nowrap_wide_example :
+  let sw := fun c => if c =? 30028 then 2 else 1 in
+  let line := [30028; 30028; 30028; 97; 98; 32] in
+  let s' := scroll_nowrap false sw line 0 5 1 0 0 0 0 0 4 1 (mkss 0 0 0) in
+  let o := copy_body sw sw (fun c => [c]) false false (fun _ _ => []) 5 1 0 0 [line] s' in
+  hs s' = 3 /\ alist_get (cr2 o) (0, 4) = Some (0, 4) /\ cstr (scr_get (cscr o) 0 4) = [98] /\
+  alist_get (cr2 o) (0, 1) = None /\ alist_get (cr2 o) (0, 2) = Some (0, 1).
+Proof. exact nowrap_wide_example. Qed.
+Print Assumptions C11_nowrap_wide_example.
+
+(* (round 6) ... and on the render step ITSELF: for the wide sub-domain without
+   wrapping (source width = display width >= 1 for every character of the width
+   table) [render] satisfies the same conclusion as C11_render_nowrap: succeeds,
+   cursor registered inside the body (render_cursor_ok = true), the r_grid cell
+   there shows the DOCUMENT character under the cursor, column maps consistent;
+   any text, 0 <= cursor <= len text, any previous scroll state. *)
+Theorem C11_render_nowrap_wide : forall g W Hh xpos ypos text cursor st,
+  (forall c, tab_sw g c = tab_dw g c /\ 1 <= tab_dw g c) -> 0 <= g_tabstop g ->
+  0 <= g_top g /\ 0 <= g_bottom g /\ 0 <= g_left g /\ 0 <= g_right g ->
+  1 <= Hh -> 0 <= cursor <= len text ->
+  g_wrap g = false ->
+  1 <= r_bwid g W text - (if g_haspfx g then strw (tab_sw g) (cfg_pfx g (r_row text cursor) 0) else 0) ->
+  render_conclusion g W Hh xpos ypos text cursor st.
+Proof. exact render_nowrap_wide_cursor_doc. Qed.
+Print Assumptions C11_render_nowrap_wide.
+
+(* (round 6) The WIDE-character sub-domain, part 3: WITH wrapping - "visible if
+   the estimate is exact", and the estimate is what decides.
+   [pack_line] is the display-width-aware layout of a line (greedy packing of the
+   DISPLAYED cell widths with the row's prefix - what _copy_body does, proved:
+   Proofs/C11_PackFacts.v pci_reg / pcls_reg), [prows] the number of rows it
+   uses.  For every displayed width >= 1 (any source widths >= 0: wide AND
+   caret/hex control forms, no zero-width marks), prefixes that leave room for
+   the widest character, any previous scroll state with vertical_scroll >= 0:
+   IF get_height_for_line's estimate equals [prows] for every line, and for the
+   slice up to and including the cursor cell equals the cursor's packed row + 1,
+   THEN the cursor is registered at (rows above - vertical_scroll_2 + its
+   packed row, its packed column), inside the window, on the cell showing its
+   character.  The refuted inputs (C11_wrap_wide_refuted / F14,
+   C11_wrap_control_refuted / F13) are inputs where the estimate is NOT exact:
+   C11_wrap_wide_witness_not_exact.  What is NOT proved: the converse (an
+   inexact estimate need not hide the cursor), and zero-width characters
+   (C11-F2 is a defect of copy_line itself, not of the estimate). *)
+Theorem C11_wrap_visible_if_exact :
+  forall sw dw disp haspfx pfx width height xpos ypos top bottom lines cyr cxc st allow,
+  (forall c, 0 <= sw c) -> (forall c, 1 <= dw c) ->
+  (forall l k c, pfxw dw haspfx pfx l k + dw c <= width) ->
+  1 <= height -> 0 <= top -> 0 <= bottom -> 0 <= vs st ->
+  0 <= cyr < len lines -> 0 <= cxc < len (xline_of lines cyr) ->
+  forall kc xc,
+  nth_error (pack_line dw haspfx pfx width cyr (xline_of lines cyr)) (Z.to_nat cxc) = Some (kc, xc) ->
+  (forall l, 0 <= l < len lines ->
+     height_for_line sw haspfx pfx (xline_of lines l) l width None = prows dw haspfx pfx width l (xline_of lines l)) ->
+  height_for_line sw haspfx pfx (xline_of lines cyr) cyr width (Some (cxc + 1)) = kc + 1 ->
+  let Hfn l := height_for_line sw haspfx pfx (xline_of lines l) l width None in
+  let tbhn s := height_for_line sw haspfx pfx (xline_of lines cyr) cyr width (Some s) in
+  let s' := scroll_wrap allow Hfn tbhn width height top bottom cyr cxc (len lines) st in
+  let o := copy_body sw dw disp true haspfx pfx width height xpos ypos lines s' in
+  let y := sumH Hfn (vs s') (Z.to_nat cyr) - vs2 s' + kc in
+  0 <= y < height /\ 0 <= xc < width /\
+  alist_get (cr2 o) (cyr, cxc) = Some (y + ypos, xc + xpos) /\
+  exists c, nth_error (xline_of lines cyr) (Z.to_nat cxc) = Some c /\
+            cstr (scr_get (cscr o) (y + ypos) (xc + xpos)) = disp c.
+Proof. exact wrap_visible_if_exact. Qed.
+Print Assumptions C11_wrap_visible_if_exact.
+
+(* copy_line draws a wrapped line exactly as the display-width-aware layout says
+   (the fact behind the theorem above, every displayed width >= 1): character i
+   of line (lineno + j), which [pack_line] puts on row k / column x of its line,
+   is registered on screen row cy + (packed rows of the lines before it) + k. *)
+Theorem C11_copy_is_pack :
+  forall sw dw disp haspfx pfx width height xpos ypos,
+  (forall c, 1 <= dw c) -> (forall l k c, pfxw dw haspfx pfx l k + dw c <= width) ->
+  forall (R : Z -> Z), (forall l, 0 <= R l) ->
+  forall rest lineno s j line i c k x,
+  0 <= lineno ->
+  (forall m ln, nth_error rest m = Some ln ->
+     R (lineno + Z.of_nat m) = prows dw haspfx pfx width (lineno + Z.of_nat m) ln) ->
+  nth_error rest j = Some line -> nth_error line i = Some c ->
+  nth_error (pack_line dw haspfx pfx width (lineno + Z.of_nat j) line) i = Some (k, x) ->
+  0 <= cy s + sumH R lineno (Z.to_nat (lineno + Z.of_nat j)) + k < height ->
+  alist_get (cr2 (copy_lines sw dw disp true haspfx pfx width height xpos ypos 0 rest lineno s))
+            (lineno + Z.of_nat j, Z.of_nat i)
+  = Some (cy s + sumH R lineno (Z.to_nat (lineno + Z.of_nat j)) + k + ypos, x + xpos).
+Proof. exact pcls_reg. Qed.
+Print Assumptions C11_copy_is_pack.
+
+Example C11_wrap_exact_example :
+  let lines := [[30028; 30028; 97; 32]] in
+  let o := xout ex_sw ex_sw (fun c => [c]) false (fun _ _ => []) 4 2 0 0 0 0 lines 0 2 (mkss 0 0 0) false in
+  alist_get (cr2 o) (0, 2) = Some (1, 0) /\ cstr (scr_get (cscr o) 1 0) = [97].
+Proof. exact wrap_exact_example. Qed.
+Print Assumptions C11_wrap_exact_example.
+
+Example C11_wrap_wide_witness_not_exact :
+  let lines := [[97; 98; 32]; [99; 100; 32]; [30028; 30028; 30028; 30028; 122; 32]] in
+  height_for_line ex_sw false (fun _ _ => []) (xline_of lines 2) 2 5 None = 2 /\
+  prows ex_sw false (fun _ _ => []) 5 2 (xline_of lines 2) = 3.
+Proof. exact wrap_wide_witness_not_exact. Qed.
+Print Assumptions C11_wrap_wide_witness_not_exact.
 
 (* The render step ITSELF (Document row/col -> BeforeInput/TabsProcessor ->
    trailing blank -> NumberedMargin / ScrollbarMargin widths -> scroll ->
